@@ -61,38 +61,45 @@ structure Front where
   off : Nat
   base : Nat
 
-/-- white space, sign, `0x` prefix, base 0 — statement by statement.  C's `&&`
-short-circuits: `*s` is read only when `c == '0'`, `s[1]` only when `*s` is
-`x`/`X`. -/
+/-- `if (c == '-') { neg = 1; c = *s++; } else if (c == '+') { c = *s++; }` -/
+def signStep (R : Reads) (c : Int) (rest : List Byte) (off : Nat) : Option (Bool × Int × List Byte × Nat) :=
+  if c = 45 then
+    match rest with
+    | [] => none
+    | b :: r => some (true, rd R.sg b, r, off + 1)
+  else if c = 43 then
+    match rest with
+    | [] => none
+    | b :: r => some (false, rd R.sg b, r, off + 1)
+  else some (false, c, rest, off)
+
+/-- `if ((base == 0 || base == 16) && c == '0' && (*s == 'x' || *s == 'X') &&
+isxdigit((unsigned char) s[1])) { c = s[1]; s += 2; base = 16; }
+if (base == 0) base = c == '0' ? 8 : 10;`
+C's `&&` short-circuits: `*s` is read only when `c == '0'`, `s[1]` only when
+`*s` is `x`/`X`. -/
+def prefixStep (R : Reads) (base : Nat) (neg : Bool) (c : Int) (rest : List Byte) (off : Nat) : Option Front :=
+  if (base = 0 ∨ base = 16) ∧ c = 48 then
+    match rest with
+    | [] => none
+    | x :: r1 =>
+      if x = 120 ∨ x = 88 then
+        match r1 with
+        | [] => none
+        | y :: r2 =>
+          if isxdigit (y.toNat : Int) then some ⟨neg, rd R.sg y, r2, off + 2, base0 (rd R.sg y) 16⟩
+          else some ⟨neg, c, rest, off, base0 c base⟩
+      else some ⟨neg, c, rest, off, base0 c base⟩
+  else some ⟨neg, c, rest, off, base0 c base⟩
+
+/-- white space, sign, `0x` prefix, base 0 — statement by statement -/
 def front (R : Reads) (mem : List Byte) (base : Nat) : Option Front :=
   match skipWs R.ws mem 0 with
   | none => none
   | some (c, rest, off) =>
-    let sgn : Option (Bool × Int × List Byte × Nat) :=
-      if c = 45 then
-        match rest with
-        | [] => none
-        | b :: r => some (true, rd R.sg b, r, off + 1)
-      else if c = 43 then
-        match rest with
-        | [] => none
-        | b :: r => some (false, rd R.sg b, r, off + 1)
-      else some (false, c, rest, off)
-    match sgn with
+    match signStep R c rest off with
     | none => none
-    | some (neg, c, rest, off) =>
-      if (base = 0 ∨ base = 16) ∧ c = 48 then
-        match rest with
-        | [] => none
-        | x :: r1 =>
-          if x = 120 ∨ x = 88 then
-            match r1 with
-            | [] => none
-            | y :: r2 =>
-              if isxdigit (y.toNat : Int) then some ⟨neg, rd R.sg y, r2, off + 2, base0 (rd R.sg y) 16⟩
-              else some ⟨neg, c, rest, off, base0 c base⟩
-          else some ⟨neg, c, rest, off, base0 c base⟩
-      else some ⟨neg, c, rest, off, base0 c base⟩
+    | some (neg, c, rest, off) => prefixStep R base neg c rest off
 
 /-- the `isdigit / isalpha / else break` chain: the digit value, `none` = `break` -/
 def digitOf (c : Int) : Option Int :=
@@ -472,6 +479,11 @@ def hexPrefix (t : List Byte) : Bool :=
   | z :: x :: y :: _ => z.toNat = 48 && (x.toNat = 120 || x.toNat = 88) && digit y < 16
   | _ => false
 
+/-- the base the digits are read in: 16 after a prefix; for base 0, 8 after
+a leading `0`, else 10 -/
+def effBase (base : Nat) (hex : Bool) (t2 : List Byte) : Nat :=
+  if hex then 16 else if base = 0 then (if t2.head?.map (·.toNat) = some 48 then 8 else 10) else base
+
 /-- The subject sequence of `t` for `base ∈ {0, 2..36}`: leading white space,
 an optional sign, for base 16 (or 0) an optional `0x`/`0X`, then the longest
 non-empty run of digits of the base (base 0: 16 after a prefix, 8 after a
@@ -479,12 +491,12 @@ leading `0`, else 10).  `none`: no conversion can be performed. -/
 def parse (t : List Byte) (base : Nat) : Option Subject :=
   let ws := (t.takeWhile isSpace).length
   let t1 := t.dropWhile isSpace
-  let (neg, sl, t2) := sign t1
-  let hex := (base = 0 ∨ base = 16) && hexPrefix t2
-  let b := if hex then 16 else if base = 0 then (if (t2.head?.map (·.toNat)) = some 48 then 8 else 10) else base
-  let t3 := if hex then t2.drop 2 else t2
+  let sg := sign t1
+  let hex := decide (base = 0 ∨ base = 16) && hexPrefix sg.2.2
+  let b := effBase base hex sg.2.2
+  let t3 := if hex then sg.2.2.drop 2 else sg.2.2
   let ds := digits b t3
-  if ds = [] then none else some ⟨neg, ofDigits b ds, ws + sl + (if hex then 2 else 0) + ds.length⟩
+  if ds = [] then none else some ⟨sg.1, ofDigits b ds, ws + sg.2.1 + (if hex then 2 else 0) + ds.length⟩
 
 /-- result of a signed conversion of width `w`: the value if representable,
 else the nearest limit; 0 and the start of the string when no conversion -/
